@@ -8,17 +8,22 @@ Callee classification of NumPy/pandas functions (fresh / view-of-args) is the ta
 Fail-closed: an unclassified callee is treated as "may alias every argument"."""
 import ast
 import hashlib
+import re
 import sys
 
 FILES = {"core": "/repo/flox/core.py", "aggregations": "/repo/flox/aggregations.py", "aggregate_flox": "/repo/flox/aggregate_flox.py",
          "aggregate_npg": "/repo/flox/aggregate_npg.py", "aggregate_numbagg": "/repo/flox/aggregate_numbagg.py", "xrutils": "/repo/flox/xrutils.py",
-         "dask_array_ops": "/repo/flox/dask_array_ops.py"}
+         "dask_array_ops": "/repo/flox/dask_array_ops.py", "xarray": "/repo/flox/xarray.py"}
 
 # functions that are (or are called from) task callables
 TASK_ROOTS = ["core.chunk_reduce", "core.chunk_argreduce", "core._reduce_blockwise", "core._aggregate", "core._simple_combine",
               "core._grouped_combine", "core._expand_dims", "core.reindex_intermediates", "core._extract_result",
               "core._lazy_factorize_wrapper", "core._ravel_factorized", "core.chunk_scan", "core.grouped_reduce", "core._zip",
               "core._finalize_scan", "aggregations.scan_binary_op", "core.identity"]
+
+# public entry points (C14: an API call writes into none of its arguments and into no module-level state)
+API_ROOTS = ["core.groupby_reduce", "core.groupby_scan", "core.rechunk_for_blockwise", "core.rechunk_for_cohorts",
+             "aggregations._initialize_aggregation", "xarray.xarray_reduce", "xarray.rechunk_for_blockwise", "xarray.rechunk_for_cohorts"]
 
 # callees returning a NEW buffer that shares no memory with their arguments
 FRESH_CALLS = {
@@ -29,18 +34,24 @@ FRESH_CALLS = {
     "np.array_equal", "np.result_type", "np.dtype", "np.issubdtype", "np.iinfo", "np.bincount", "np.argmax", "np.argwhere", "np.ix_", "np.nanmin",
     "np.maximum.accumulate", "np.abs", "np.timedelta64", "np.datetime64", "np.shape", "np.nan_to_num", "np.isscalar",
     "pd.factorize", "pd.unique", "pd.Index", "pd.RangeIndex", "pd.isnull", "pd.IntervalIndex.from_breaks", "pd.cut",
-    "math.prod", "math.ceil", "math.log", "len", "tuple", "list", "dict", "set", "sorted", "range", "zip", "enumerate", "int", "float", "bool", "str",
+    "copy.deepcopy", "xr.apply_ufunc", "xr.broadcast", "xr.align", "xr.Dataset", "xr.DataArray", "xr.Variable", "pd.MultiIndex.from_tuples",
+    "pd.MultiIndex.from_product", "math.prod", "math.ceil", "math.log", "len", "tuple", "list", "dict", "set", "sorted", "range", "zip", "enumerate", "int", "float", "bool", "str",
     "isinstance", "callable", "all", "any", "min", "max", "sum", "abs", "getattr", "hasattr", "type", "reduce", "partial", "product",
     "isnull", "notnull", "is_scalar", "is_duck_array", "is_duck_dask_array", "module_available", "normalize_axis_index",
     "_atleast_1d", "_is_arg_reduction", "_is_first_last_reduction", "_is_minmax_reduction", "is_nanlen", "quantile_new_dims_func", "_issorted",
     "flatten", "itertools.chain", "itertools.product", "tlz.groupby", "tlz.accumulate", "warnings.catch_warnings", "warnings.filterwarnings",
     "np.errstate", "logger.debug", "print", "slice", "Version", "ValueError", "NotImplementedError", "TypeError", "AssertionError",
 }
-FRESH_METHODS = {"copy", "sum", "max", "min", "any", "all", "cumsum", "argsort", "nonzero", "tolist", "item", "to_numpy", "get_indexer", "sort_values",
+# xarray: these return NEW container objects (Dataset / DataArray / Variable mappings are copy-on-write at the object level; the
+# underlying buffers may be shared, so in-place writes through .values/.data of such an object are NOT tracked here: K5 compares
+# the caller's objects before/after instead)
+XARRAY_FRESH_METHODS = {"drop_vars", "set_coords", "map", "_from_temp_dataset", "_to_temp_dataset", "assign", "expand_dims", "assign_coords",
+                        "reset_coords", "rename", "isel", "sel", "to_dataset", "to_dataarray", "broadcast_like", "chunk", "copy", "reindex_like"}
+FRESH_METHODS = XARRAY_FRESH_METHODS | {"copy", "sum", "max", "min", "any", "all", "cumsum", "argsort", "nonzero", "tolist", "item", "to_numpy", "get_indexer", "sort_values",
                  "equals", "mean", "astype", "keys", "values", "items", "get", "update", "append", "extend", "partition", "fill"}
 # callees / methods returning a VIEW of (some of) their arguments
 VIEW_CALLS = {"np.asarray", "np.broadcast_to", "np.squeeze", "np.expand_dims", "np.atleast_1d", "np.reshape", "np.moveaxis", "np.broadcast_arrays",
-              "deepfirst", "deepmap", "_concatenate2", "cast", "copy.deepcopy"}
+              "deepfirst", "deepmap", "_concatenate2", "cast"}
 VIEW_METHODS = {"reshape", "squeeze", "transpose", "view", "ravel", "swapaxes"}
 INPLACE_METHODS = {"partition", "fill", "sort", "update", "append", "extend", "resize", "itemset", "put", "setfield", "setflags", "byteswap",
                    "setdefault", "pop", "popitem", "clear", "remove", "insert", "reverse", "add", "discard"}
@@ -51,12 +62,21 @@ INPLACE_CALLS = {"np.copyto", "np.put", "np.place", "np.putmask", "np.put_along_
 # callables flox receives -- user/registry kernels, assumed pure: exercised by K5 -- and method chains on fresh temporaries).
 # Every OTHER unclassified callee is translated as "may write into every argument" (fail-closed).
 PURE_UNKNOWN = {"AlignedArrays", "ScanState", "FactorProps", "combine", "reduction", "method", "func", "finalize", "agg.finalize", "preprocess",
-                "binary_op"}
+                "binary_op", "scan",
+                # used by the API entry points (graph construction / planning): dask and scipy constructors and pure helpers
+                "ReindexStrategy", "chunk_unique", "csr_array", "dask.array.map_blocks", "dask.array.unify_chunks", "from_array", "make_bitmask",
+                "map", "map_blocks", "normalize_axis_tuple", "npg.aggregate_numpy.aggregate", "unify_chunks",
+                "ArrayLayer", "dask.array.Array", "dask.array.blockwise", "dask.base.tokenize", "lol_tuples", "partition_all", "tlz.compose",
+                "tree_reduce"}
 
 
 UNKNOWN_METHODS = set()
 # methods (on a named receiver) reviewed not to modify the receiver; any other unclassified method counts as a write into it
-PURE_METHODS = {"finalize", "result", "COO"}   # agg.finalize(*intermediates): user/registry finaliser (assumed pure, K5); Future.result(); sparse.COO constructor
+PURE_METHODS = {"finalize", "result", "COO", "submit", "timedelta", "preprocess", "rechunk", "compute", "map_blocks",
+                "from_collections", "fromkeys", "groupby_blockwise", "groupby_reduction", "unify_chunks", "from_array"}   # agg.finalize(*intermediates): user/registry finaliser (assumed pure, K5); Future.result(); sparse.COO constructor
+
+
+GLOBALS = "%globals"
 
 
 def q(s):
@@ -71,6 +91,7 @@ class Fn:
             self.params.append(node.args.vararg.arg)
         if node.args.kwarg:
             self.params.append(node.args.kwarg.arg)
+        self.params.append(GLOBALS)   # pseudo-parameter: every module-level object (the registry AGGREGATIONS, caches, constants)
         self.stmts = []   # tuples
 
     def add(self, *s):
@@ -79,7 +100,7 @@ class Fn:
 
 def cname(c):
     try:
-        return ast.unparse(c.func)
+        return re.sub(r"#\d+", "", ast.unparse(c.func))     # version suffixes of local names (see _version_block) are not part of a callee's name
     except Exception:  # noqa: BLE001
         return "?"
 
@@ -98,6 +119,7 @@ def base_name(e):
 class Extract(ast.NodeVisitor):
     def __init__(self, fn, known):
         self.fn, self.known, self.tmp = fn, known, 0
+        self.partials = {}    # local name -> (known callee name, keywords) for  x = partial(g, **kw)
 
     def fresh_tmp(self):
         self.tmp += 1
@@ -155,7 +177,9 @@ class Extract(ast.NodeVisitor):
         self.expr(e, tmp)
         self.fn.add("Put", container, tmp)
 
-    def call(self, c, target):
+    def call(self, c, target, unpack=None):
+        """unpack: names receiving the components of a tuple result (x, y = g(...)) when g always returns a tuple literal of
+        that length: component i is then the result of the projected function g@i (same body, returns only component i)"""
         f = self.fn
         nm = cname(c)
         argexprs = list(c.args) + [k.value for k in c.keywords]
@@ -177,9 +201,17 @@ class Extract(ast.NodeVisitor):
             if callee is not None:
                 fake = ast.Call(func=ast.Name(id=g, ctx=ast.Load()), args=list(c.args[1:]), keywords=kws + list(c.keywords))
                 return self.call(fake, target)
+        if nm in self.partials:
+            g, kws = self.partials[nm]
+            fake = ast.Call(func=ast.Name(id=g, ctx=ast.Load()), args=list(c.args), keywords=kws + list(c.keywords))
+            return self.call(fake, target)
         if isinstance(c.func, ast.Attribute) and base_name(c.func) is not None and nm not in FRESH_CALLS and nm not in VIEW_CALLS \
-                and not nm.startswith(("np.", "pd.", "math.", "dask.", "itertools.", "tlz.", "warnings.", "xrdtypes.", "dtypes.", "aggregate_", "npg.", "numbagg.", "xrutils.", "operator.")):
+                and not nm.startswith(("np.", "pd.", "xr.", "math.", "dask.", "itertools.", "tlz.", "warnings.", "xrdtypes.", "dtypes.", "aggregate_", "npg.", "numbagg.", "xrutils.", "operator.")):
             recv = base_name(c.func)
+            if nm in ("copy.copy",):
+                # a SHALLOW copy shares its interior with the argument: under deep ownership it is an alias of it
+                f.add("Alias", target, sorted({n for a in argexprs for n in names(a)}))
+                return
             if short in INPLACE_METHODS:
                 f.add("Store", recv)
             if short in VIEW_METHODS or (short == "astype" and any(k.arg == "copy" for k in c.keywords)):
@@ -220,6 +252,13 @@ class Extract(ast.NodeVisitor):
                 t = self.fresh_tmp()
                 self.expr(k.value, t)
                 args.append((k.arg, t))
+            args.append((GLOBALS, GLOBALS))      # the callee sees (and may write) the same module-level state
+            if unpack is not None and getattr(callee, "tuple_arity", None) == len(unpack) and all(
+                    f"{callee.qual}@{i}" in self.known for i in range(len(unpack))):
+                for i, tn in enumerate(unpack):
+                    f.add("Call", tn, f"{callee.qual}@{i}", args)
+                f.add("Fresh", target)
+                return "unpacked"
             f.add("Call", target, callee.qual, args)
             return
         # unclassified callee (third-party kernels, generic callables): may alias every argument
@@ -245,35 +284,40 @@ class Extract(ast.NodeVisitor):
 
     def assign(self, t, value):
         f = self.fn
+        if isinstance(t, ast.Name) and isinstance(value, ast.Call) and cname(value) == "partial" and value.args \
+                and isinstance(value.args[0], ast.Name) and self.known.get(value.args[0].id) is not None and len(value.args) == 1:
+            self.partials[t.id.split('#')[0]] = (value.args[0].id, list(value.keywords))
         if isinstance(t, ast.Name):
             self.expr(value, t.id)
         elif isinstance(t, (ast.Tuple, ast.List)):
             tmp = self.fresh_tmp()
-            self.expr(value, tmp)
+            if isinstance(value, ast.Call) and all(isinstance(el, ast.Name) for el in t.elts):
+                if self.call(value, tmp, unpack=[el.id for el in t.elts]) == "unpacked":
+                    return
+            else:
+                self.expr(value, tmp)
             for el in t.elts:
                 for nn in ast.walk(el):
                     if isinstance(nn, ast.Name):
                         f.add("Load", nn.id, [tmp])
-        elif isinstance(t, ast.Subscript):
+        elif isinstance(t, (ast.Subscript, ast.Attribute)):
+            # DEEP OWNERSHIP: an abstract object stands for the object and the interior it owns, so x.a[k] = v is a write into
+            # (the object rooted at) x.  Sound as long as a fresh container does not hold interior objects owned by someone
+            # else: hence shallow copies (copy.copy) are translated as ALIASES of their argument, never as fresh objects.
             b = base_name(t)
             if b:
-                f.add("Store", b)
+                if isinstance(t, ast.Subscript):
+                    f.add("Store", b)
+                else:
+                    f.add("StoreAttr", b, t.attr)
                 self.put(b, value)            # the object now holds a reference to the stored value
-        elif isinstance(t, ast.Attribute):
-            b = base_name(t)
-            if b:
-                f.add("StoreAttr", b, t.attr)
-                self.put(b, value)
 
     def visit_AugAssign(self, n):
         b = base_name(n.target)
         if b:
-            if isinstance(n.target, ast.Name):
-                # x op= e : in place for arrays, a rebinding for tuples / numbers.  Tuples/ints are always Fresh here,
-                # so recording a Store is harmless for them and necessary for arrays.
-                self.fn.add("Store", b)
-            else:
-                self.fn.add("Store", b)
+            # x op= e : in place for arrays, a rebinding for tuples / numbers.  Tuples/ints are always Fresh here,
+            # so recording a Store is harmless for them and necessary for arrays.  (x.a[k] op= e: deep ownership, see assign)
+            self.fn.add("Store", b)
 
     def visit_For(self, n):
         for tn in ast.walk(n.target):
@@ -291,7 +335,11 @@ class Extract(ast.NodeVisitor):
 
     def visit_Return(self, n):
         if n.value is not None:
-            self.expr(n.value, "%ret")
+            i = getattr(self.fn, "ret_index", None)
+            if i is not None and isinstance(n.value, ast.Tuple) and len(n.value.elts) == self.fn.tuple_arity:
+                self.expr(n.value.elts[i], "%ret")
+            else:
+                self.expr(n.value, "%ret")
 
     def visit_Expr(self, n):
         if isinstance(n.value, ast.Call):
@@ -305,17 +353,112 @@ class Extract(ast.NodeVisitor):
     visit_Lambda = lambda self, n: None  # noqa: E731
 
 
+class _Rename(ast.NodeTransformer):
+    def __init__(self, mapping):
+        self.mapping = mapping
+
+    def visit_Name(self, n):
+        if n.id in self.mapping:
+            return ast.copy_location(ast.Name(id=self.mapping[n.id], ctx=n.ctx), n)
+        return n
+
+
+def _simple_targets(targets):
+    names_ = []
+    for t in targets:
+        if isinstance(t, ast.Name):
+            names_.append(t.id)
+        elif isinstance(t, (ast.Tuple, ast.List)) and all(isinstance(e, ast.Name) for e in t.elts):
+            names_ += [e.id for e in t.elts]
+        else:
+            return None
+    return names_
+
+
+def _version_block(stmts, mapping, counter):
+    """Flow sensitivity where it is free.  Inside one block the statements run in order, so a plain assignment `x = e` KILLS the
+    earlier binding of x for the REST OF THAT BLOCK (nested blocks included): later statements see a new variable `x#n`.
+    When a nested block ends, the versions it created flow out by a weak merge `outer_x = inner_x` placed after the compound
+    statement (which also covers loop bodies executed again and exception handlers, because every other use of `outer_x` is
+    flow-insensitive).  Needed for  agg = AGGREGATIONS[func]; agg = copy.deepcopy(agg); agg.dtype = ...  and
+    result = asdelta + offset; result[mask] = NaT."""
+    out = []
+    for st in stmts:
+        if isinstance(st, (ast.Assign, ast.AnnAssign)) and getattr(st, "value", None) is not None:
+            targets = st.targets if isinstance(st, ast.Assign) else [st.target]
+            st.value = _Rename(dict(mapping)).visit(st.value)
+            killed = _simple_targets(targets)
+            if killed is None:
+                new_targets = [_Rename(dict(mapping)).visit(t) for t in targets]
+            else:
+                for name in killed:
+                    counter[0] += 1
+                    mapping[name] = f"{name}#{counter[0]}"
+                new_targets = [_Rename(dict(mapping)).visit(t) for t in targets]
+            if isinstance(st, ast.Assign):
+                st.targets = new_targets
+            else:
+                st.target = new_targets[0]
+            out.append(st)
+        elif isinstance(st, (ast.If, ast.For, ast.While, ast.With, ast.Try)):
+            merges = []
+            for field in ("test", "iter", "target"):
+                if hasattr(st, field):
+                    setattr(st, field, _Rename(dict(mapping)).visit(getattr(st, field)))
+            if isinstance(st, ast.With):
+                st.items = [_Rename(dict(mapping)).visit(i) for i in st.items]
+            blocks = [("body", st.body)]
+            if getattr(st, "orelse", None):
+                blocks.append(("orelse", st.orelse))
+            if getattr(st, "finalbody", None):
+                blocks.append(("finalbody", st.finalbody))
+            for name, blk in blocks:
+                sub = dict(mapping)
+                setattr(st, name, _version_block(blk, sub, counter))
+                merges += [(mapping.get(k, k), v) for k, v in sub.items() if mapping.get(k, k) != v]
+            for h in getattr(st, "handlers", []):
+                sub = dict(mapping)
+                h.body = _version_block(h.body, sub, counter)
+                merges += [(mapping.get(k, k), v) for k, v in sub.items() if mapping.get(k, k) != v]
+            out.append(st)
+            for outer, inner in merges:
+                out.append(ast.Assign(targets=[ast.Name(id=outer, ctx=ast.Store())], value=ast.Name(id=inner, ctx=ast.Load()), lineno=st.lineno))
+        elif isinstance(st, (ast.FunctionDef, ast.ClassDef)):
+            out.append(st)        # nested definitions are opaque to the extractor
+        else:
+            out.append(_Rename(dict(mapping)).visit(st))
+    return out
+
+
+def version_top_level_bindings(node):
+    node.body = _version_block(node.body, {}, [0])
+    return node
+
+
 def collect():
     fns = {}
     for mod, path in FILES.items():
         tree = ast.parse(open(path).read())
         for n in tree.body:
             if isinstance(n, ast.FunctionDef):
-                fns[f"{mod}.{n.name}"] = Fn(f"{mod}.{n.name}", n)
+                fns[f"{mod}.{n.name}"] = Fn(f"{mod}.{n.name}", version_top_level_bindings(n))
             elif isinstance(n, ast.ClassDef):
                 for m in n.body:
                     if isinstance(m, ast.FunctionDef):
-                        fns[f"{mod}.{n.name}.{m.name}"] = Fn(f"{mod}.{n.name}.{m.name}", m)
+                        fns[f"{mod}.{n.name}.{m.name}"] = Fn(f"{mod}.{n.name}.{m.name}", version_top_level_bindings(m))
+    # functions whose every return is a tuple literal of one length n >= 2 get n projections  g@i
+    for qn, f in list(fns.items()):
+        rets = [r for r in ast.walk(f.node) if isinstance(r, ast.Return)]
+        inner = {id(r) for d in ast.walk(f.node) if isinstance(d, (ast.FunctionDef, ast.Lambda)) and d is not f.node for r in ast.walk(d) if isinstance(r, ast.Return)}
+        rets = [r for r in rets if id(r) not in inner]
+        if rets and all(isinstance(r.value, ast.Tuple) and not any(isinstance(e, ast.Starred) for e in r.value.elts) for r in rets):
+            ar = {len(r.value.elts) for r in rets}
+            if len(ar) == 1 and min(ar) >= 2:
+                f.tuple_arity = min(ar)
+                for i in range(f.tuple_arity):
+                    g = Fn(f"{qn}@{i}", f.node)
+                    g.tuple_arity, g.ret_index = f.tuple_arity, i
+                    fns[g.qual] = g
     # name resolution helpers: bare names and module aliases
     known = dict(fns)
     for qn, f in list(fns.items()):
@@ -326,10 +469,30 @@ def collect():
     known["reindex_"] = fns["core.reindex_"]
     known["chunk_reduce"] = fns["core.chunk_reduce"]
     known["concatenate"] = fns["aggregations.concatenate"]
+    module_names = set()
+    for mod, path in FILES.items():
+        tree = ast.parse(open(path).read())
+        for n in tree.body:
+            tg = []
+            if isinstance(n, ast.Assign):
+                tg = n.targets
+            elif isinstance(n, ast.AnnAssign) and n.value is not None:
+                tg = [n.target]
+            for t in tg:
+                for nn in ast.walk(t):
+                    if isinstance(nn, ast.Name):
+                        module_names.add(nn.id)
     for f in fns.values():
         for i, p in enumerate(f.params):
             f.add("Param", p, i)
         Extract(f, known).visit(f.node)
+        local = set(f.params) | {nn.id.split("#")[0] for nn in ast.walk(f.node) if isinstance(nn, ast.Name) and isinstance(nn.ctx, ast.Store)}
+        used = {nn.id for nn in ast.walk(f.node) if isinstance(nn, ast.Name) and isinstance(nn.ctx, ast.Load) and "#" not in nn.id}
+        for g in sorted((used & module_names) - local):
+            f.add("Alias", g, [GLOBALS])        # a module-level object: part of the state shared by all calls
+        for nn in ast.walk(f.node):
+            if isinstance(nn, (ast.Global, ast.Nonlocal)):
+                f.add("Store", GLOBALS)          # rebinding a module-level name
     return fns
 
 
@@ -355,6 +518,9 @@ ALLOWED_STORES = {
     ("core.factorize_", "group_idx"): "group_idx is component [1] of _factorize_single's result (or their ravel), which is always a new array "
                                       "(flat.copy(), np.digitize, np.searchsorted, pd.factorize; checked inside _factorize_single itself); the IR "
                                       "is field-insensitive and merges it with component [0] (the expected index) and with zip()'s other operand",
+    ("core.groupby_reduce", "reindex"): "reindex.set_blockwise_for_numpy() assigns only when .blockwise is None, and _validate_reindex returns a NEW "
+                                        "ReindexStrategy on every path where the caller's object has blockwise None (all_eager -> ReindexStrategy(blockwise=True)); "
+                                        "exercised by C14's side-effect harness with user-supplied ReindexStrategy objects",
     ("core._reduce_blockwise", "agg"): "idempotent attribute write agg.finalize = None on the per-call deep copy of the blueprint",
 }
 
@@ -368,8 +534,8 @@ def apply_allowlist(fns):
     for qn, f in fns.items():
         new = []
         for st in f.stmts:
-            if st[0] in ("Store", "StoreAttr") and (qn, st[1]) in ALLOWED_STORES:
-                new.append(("Allowed", st[1], ALLOWED_STORES[(qn, st[1])]))
+            if st[0] in ("Store", "StoreAttr") and (qn.split("@")[0], st[1].split("#")[0]) in ALLOWED_STORES:
+                new.append(("Allowed", st[1], ALLOWED_STORES[(qn.split("@")[0], st[1].split("#")[0])]))
             else:
                 new.append(st)
         f.stmts = new
@@ -419,7 +585,7 @@ def solve(fns, order):
                         for y in s[2]:
                             grow(P(s[1]), P(y))
                     elif k == "Load":
-                        if (qn, s[1]) in COPY_POINTS:
+                        if (qn.split("@")[0], s[1].split("#")[0]) in COPY_POINTS:
                             grow(P(s[1]), {("F", s[1])})
                         else:
                             for y in s[2]:
@@ -470,7 +636,7 @@ def loc(l):
     return f"(LParam {l[1]})" if l[0] == "P" else f"(LFresh {q(l[1])})"
 
 
-def emit(fns, order, cert, summ, out, h):
+def emit(fns, order, cert, summ, out, h, task_order):
     lines = [f"(* GENERATED by tools/translate/gen_effects.py from the AST of flox (task functions).\n   sources sha256: {h} *)",
              "From Coq Require Import String List.\nFrom Flox Require Import EffIR.\nImport ListNotations.\n"]
     defs = []
@@ -486,7 +652,7 @@ def emit(fns, order, cert, summ, out, h):
             elif k == "Alias":
                 st.append(f"SAlias {q(s[1])} [{'; '.join(q(y) for y in s[2])}]")
             elif k == "Load":
-                if (qn, s[1]) in COPY_POINTS:
+                if (qn.split("@")[0], s[1].split("#")[0]) in COPY_POINTS:
                     st.append(f"SCopy {q(s[1])}")
                 else:
                     st.append(f"SLoad {q(s[1])} [{'; '.join(q(y) for y in s[2])}]")
@@ -510,15 +676,20 @@ def emit(fns, order, cert, summ, out, h):
         pts, cont = cert[qn]
         c1 = "; ".join(f"({q(v)}, [{'; '.join(loc(l) for l in sorted(ls))}])" for v, ls in sorted(pts.items()))
         c2 = "; ".join(f"({loc(o)}, [{'; '.join(loc(l) for l in sorted(ls))}])" for o, ls in sorted(cont.items()))
-        name = "fn_" + qn.replace(".", "_")
+        name = "fn_" + qn.replace(".", "_").replace("@", "_proj")
         defs.append(name)
         sep = ";\n   "
         lines.append(f"Definition {name} : fndef := mkFn {q(qn)} {len(f.params)}\n  [{sep.join(st)}]\n  [{c1}]\n  [{c2}]\n"
                      f"  [{'; '.join(str(i) for i in sorted(summ[qn]['stores']))}] [{'; '.join(str(i) for i in sorted(summ[qn]['ret']))}]"
                      f" [{'; '.join(str(i) for i in sorted(summ[qn]['retc']))}].\n")
-    lines.append("Definition task_functions : list fndef := [" + "; ".join(defs) + "].\n")
-    roots = [r for r in TASK_ROOTS if r in order]
+    tdefs = ["fn_" + qn.replace(".", "_").replace("@", "_proj") for qn in task_order]
+    lines.append("Definition task_functions : list fndef := [" + "; ".join(tdefs) + "].\n")
+    roots = [r for r in TASK_ROOTS if r in task_order]
     lines.append("Definition task_roots : list string := [" + "; ".join(q(r) for r in roots) + "].\n")
+    lines.append("(* every function reachable from a public entry point or a task callable *)")
+    lines.append("Definition api_functions : list fndef := [" + "; ".join(defs) + "].\n")
+    lines.append("Definition api_roots : list string := [" + "; ".join(q(r) for r in API_ROOTS if r in order) + "].\n")
+    lines.append(f"Definition globals_param : string := {q(GLOBALS)}.\n")
     lines.append("Definition allowed_stores : list (string * string * string) := [" +
                  "; ".join(f"({q(k[0])}, {q(k[1])}, {q(v[:100])})" for k, v in sorted(ALLOWED_STORES.items())) + "].\n")
     lines.append("Definition copy_points : list (string * string * string) := [" +
@@ -538,14 +709,19 @@ def main(out):
         h.update(open(p, "rb").read())
     fns = collect()
     apply_allowlist(fns)
-    order = reachable(fns, TASK_ROOTS)
+    task_order = reachable(fns, TASK_ROOTS)
+    order = reachable(fns, TASK_ROOTS + API_ROOTS)
+    missing = [r for r in TASK_ROOTS + API_ROOTS if r not in fns]
+    if missing:
+        print("FAILED: root functions not found in the source:", missing)
+        sys.exit(2)
     cert, summ = solve(fns, order)
-    emit(fns, order, cert, summ, out, h.hexdigest())
+    emit(fns, order, cert, summ, out, h.hexdigest(), task_order)
     if "--report" in sys.argv:
         for qn in order:
             if summ[qn]["stores"]:
                 print("STORES", qn, [fns[qn].params[i] for i in sorted(summ[qn]["stores"])])
-        print(len(order), "functions")
+        print(len(task_order), "task functions,", len(order), "functions in all")
         for qn, nm in sorted(UNKNOWN_METHODS):
             if qn in order:
                 print("UNKNOWN-METHOD", qn, nm)
